@@ -376,6 +376,14 @@ def node_flag(prog: Program) -> RuleResult:
     return r
 
 
+def _live_iter(prog):
+    # the domain of let(T, None) is enumerated lazily: a sweep between two of its steps must not shift the list under it (a live instance
+    # skipped is a solution dropped, for this evaluation and - through the domain cache - for every later one)
+    from .c03 import live_iter
+
+    return live_iter(prog)
+
+
 def _carry1(prog):
     # 'exactly one result per satisfying assignment' is about the data as it is when the query is evaluated: nothing computed from the user's
     # objects during one evaluation (attribute values, verdicts) answers the next
@@ -402,4 +410,4 @@ def run(prog: Program, tier: str) -> List[RuleResult]:
             # comparisons are the other atoms: the verdict is the operator applied to the operand values of this assignment
             guard(lambda: cmp_apply(prog)),
             # an operand flagged false is dropped by the comparator: the flag must come from this evaluation, in condition position only
-            guard(lambda: ep_operand(prog)), guard(lambda: _hv_truth(prog)), guard(lambda: _qc_path(prog)), guard(lambda: node_flag(prog)), guard(lambda: _carry1(prog))]
+            guard(lambda: ep_operand(prog)), guard(lambda: _hv_truth(prog)), guard(lambda: _qc_path(prog)), guard(lambda: node_flag(prog)), guard(lambda: _carry1(prog)), guard(lambda: _live_iter(prog))]
